@@ -224,9 +224,11 @@ def run_impl(ck, sc, idx):
             return 1 if k in cut and counts[k] > cut[k] else 0
         b1 = drive_builds.run_build_session(wd, conf, list(prior.get('filter', [])), lambda s, c: 'ok',
                                             cpu_count=1, bench_rc=bench_rc)
-        if b1.res.crash:
-            raise lib.InfraError('prior session crashed: %r' % (b1.res.crash,))
         ck.impl_traces += 1
+        if b1.res.crash:
+            # a traceback raised by ReBench is a finding, not tooling trouble
+            b1.in_prior_session = True
+            return wd, b1
     picks = sc.get('picks')
     if picks is not None:
         it = iter(list(picks))
@@ -447,6 +449,21 @@ def check_batch(ck, scenarios, base_idx=0, search=True):
             ck.count('point:' + str(kd))
         if parallel:
             ck.count('threads:%d' % bs.threads)
+        if order is None and bs.res.crash:
+            # the session ended in a traceback: the implementation no longer behaves as the model
+            # says (every session of these scenarios runs to its end), and no property clause can
+            # be evaluated on it
+            cls, msg, frames = bs.res.crash
+            where = frames[-1] if frames else None
+            which = 'prior' if getattr(bs, 'in_prior_session', False) else 'main'
+            ck.oracle_fail('no_traceback', inp, {'status': bs.res.status(), 'message': msg, 'frames': frames,
+                                                 'session': which},
+                           signature={'clause': 'no_traceback', 'exception': cls, 'raised_in': where})
+            ck.disagree('c13.session: the session ended in a traceback', inp,
+                        {'status': bs.res.status(), 'message': msg, 'frames': frames, 'session': which},
+                        {'status': 'the session runs to its end'}, THEOREMS_SEQ)
+            ck.case(nontrivial_key=json.dumps([make_config(sc), sc['results'], sc['flags'], sc['sched']], sort_keys=True))
+            continue
         if order is None:
             ck.oracle_fail('session_runs', inp, {'status': bs.res.status(), 'crash': bs.res.crash},
                            signature={'clause': 'session_runs', 'status': bs.res.status()})
